@@ -84,7 +84,13 @@ fn check_attribution<const N: usize, const NAMED: usize>() {
     // links: ids 1..=N; each independently holds the number or not, plus one unrelated packet
     let holds: [bool; N] = core::array::from_fn(|_| kani::any());
     let mut conns: [SrtlaConnection; N] = core::array::from_fn(|i| {
-        let mut c = any_conn(i as u64 + 1, SYM_INT);
+        // only what a NAK charge reads or writes is symbolic (window, loss / burst / fast-recovery state);
+        // the rest of the link is the fresh-link default
+        let mut c = SrtlaConnection::new_registering(i as u64 + 1, String::new(), std::net::IpAddr::V4(std::net::Ipv4Addr::LOCALHOST), 0);
+        c.connected = kani::any();
+        c.window = any_window();
+        *c.vh_congestion_mut() = any_cc();
+        kani::assume(c.vh_congestion().nak_count >= 0);
         let other: i32 = kani::any();
         kani::assume(other >= 0 && other != seq as i32);
         let mut n = 0;
@@ -189,3 +195,32 @@ fn c05_n2_norecord() {
     check_attribution::<2, 3>();
 }
 
+
+/// Minimal instance of the fallback path: no tracker record at all (fresh tracker), both links hold
+/// the NAKed number; exactly one of them - the lowest-numbered - is charged.  Only the windows are
+/// symbolic, so the query stays small whatever shape the scan takes.
+#[kani::proof]
+#[kani::unwind(6)]
+#[kani::stub(alloc::fmt::format, no_format)]
+fn c05_fallback_two_holders() {
+    let seq: u32 = kani::any();
+    kani::assume(seq < 0x7fff_ffff);
+    let now = any_now();
+    let tracker = SequenceTracker::new();
+    let mk = |id: u64| {
+        let mut c = SrtlaConnection::new_registering(id, String::new(), std::net::IpAddr::V4(std::net::Ipv4Addr::LOCALHOST), 0);
+        c.connected = true;
+        c.window = any_window();
+        c.vh_packet_log_mut().insert(seq as i32, 1);
+        c.in_flight_packets = 1;
+        c
+    };
+    let mut conns = [mk(1), mk(2)];
+    let (w0, w1) = (conns[0].window, conns[1].window);
+    let charged = attribute_nak(&mut conns[..], &tracker, seq, now);
+    assert!(charged == Some(0), "no record: the first holder is charged");
+    assert!(conns[0].window == core::cmp::max(w0 - 100, 1000) && conns[0].in_flight_packets == 0 && conns[0].vh_congestion().nak_count == 1, "exactly one charge on it");
+    assert!(conns[1].window == w1 && conns[1].in_flight_packets == 1 && conns[1].vh_congestion().nak_count == 0, "the other holder is NOT charged: a NAK reduces the window of at most one uplink");
+    core::mem::forget(conns);
+    core::mem::forget(tracker);
+}
